@@ -253,6 +253,24 @@ def _f26(f, pid, case, clause, ctx):
     return len(cfgs) >= 2 and any(any(c[k] != cfgs[0][k] for c in cfgs[1:]) for k in f["params"]["keys"])
 
 
+@matcher("unification_policy_read_at_metadata_and_again_at_lowering")
+def _f36(f, pid, case, clause, ctx):
+    import ast
+
+    if case.get("fn") != "history" or not clause.startswith("value-depends-on-history-or-configuration"):
+        return False
+    prog = case.get("prog", [])
+    # trigger: an operation that unifies the chunks of two array operands (elementwise with two arrays, where) ...
+    if not any((a.get("a") == "Elemwise" and a.get("y")) or a.get("a") == "Where" for a in prog):
+        return False
+    try:
+        cfgs = [ast.literal_eval(x) for x in case.get("cfgs", [])]
+    except Exception:
+        return False
+    # ... observed under configurations that differ in the unification policy / limit
+    return len(cfgs) >= 2 and any(any(c[k] != cfgs[0][k] for c in cfgs[1:]) for k in f["params"]["keys"])
+
+
 @matcher("dask_int_array_index_out_of_bounds_wraps")
 def _f27(f, pid, case, clause, ctx):
     act = _act(case)
